@@ -87,6 +87,24 @@ CLAIMED = {
              "explored, not proved. Stub ClusterMetadata; zero-padded names.",
         technique="Lean-defined statements (soundness proved) evaluated on the real assignor over a bounded exhaustive + random space",
     ),
+    "C18": dict(
+        text="Machine-checked (Lean 4) theorems about an executable model of ScramAuthenticator over uninterpreted "
+             "H/HMAC/Hi/base64. For every user name (any ',' '=' or non-ASCII), password, salt, iteration count "
+             "1..2^31-1 and comma-free nonces, an RFC 5802 server holding StoredKey/ServerKey of the same password "
+             "parses the client's messages, derives the same AuthMessage, verifies the proof, and the client completes. "
+             "For every server-first whose nonce is missing or does not extend the client's, the client raises. The "
+             "login completes iff v= decodes to HMAC(HMAC(Hi(pw,salt,i),'Server Key'),AuthMessage) for the delivered "
+             "salt/i. All 13 theorems are full strength. The model is tied to the real class on every run by a "
+             "byte-level differential check: model terms are evaluated with hashlib/hmac/base64 against an independent "
+             "RFC 5802 server, honest and with every single field tampered; the Lean statement `holds` is evaluated on "
+             "every observed login.",
+        design="3/C18",
+        note="trusted: Lean kernel with standard axioms; HMAC/H unforgeability is outside the model; base64 round trip, "
+             "no-comma and equal digest lengths are hypotheses (XOR cancellation proved on byte lists); the RFC 5802 "
+             "server transcription; SASLprep = identity (as in Kafka); int() modelled for ASCII text; base64 definedness "
+             "oracle from CPython; term evaluator, harness and driver.",
+        technique="Lean proof over abstract crypto + symbolic-term T-diff against an independent RFC 5802 server",
+    ),
 }
 
 NOT_YET = {}
